@@ -119,6 +119,11 @@ func (r *Reader) readRecord() (*record, error) {
 	// Read payload
 	data := make([]byte, length)
 	if _, err := io.ReadFull(r.reader, data); err != nil {
+		// The header has been read, so the file ending here - even exactly
+		// behind the header - cuts a record short; it is not a clean end
+		if err == io.EOF {
+			err = io.ErrUnexpectedEOF
+		}
 		return nil, err
 	}
 
